@@ -66,7 +66,7 @@ func H_C20_unary_chain() {
 	x := vfInt32("req")
 	vfAssume(x > 0 && x < 1000)
 	info := srv.services[zzSvcName]
-	resp := h.processUnaryRpc(context.Background(), info, info.methods["Unary"], &Rpc{Id: 5, Header: zzReqHdr("Unary"), Body: zzBody32(x)})
+	resp := h.processUnaryRpc(context.Background(), info, info.methods["Unary"], &Rpc{Id: 5, Header: zzReqHdr("Unary"), Body: &goatorepo.Body{Data: zzEnc(x)}})
 	// expected trace
 	var want []int
 	last := n
@@ -98,7 +98,7 @@ func H_C20_unary_chain() {
 		vfAssert(impl.ncalls == 1, "handler-invoked-exactly-once")
 		vfAssert(handlerSaw == x+sum, "handler-sees-all-request-rewrites")
 		vfAssert(handlerCtxOK, "handler-sees-all-context-changes")
-		got := zzDecodeBody(resp.Body.Data)
+		got := zzDec(resp.Body.Data)
 		vfAssert(got == (x+sum)*2+sum, "peer-sees-all-reply-rewrites")
 	} else {
 		vfAssert(impl.ncalls == 0, "handler-not-invoked-after-short-circuit")
